@@ -62,15 +62,12 @@ func (d *deduplicator) notifyDKGStarted(
 	cacheKey := newDKGSeed.Text(16)
 	// If the key is not in the cache, that means the seed was not handled
 	// yet and the client should proceed with the execution.
-	if !d.dkgSeedCache.Has(cacheKey) {
-		verifhook.At("dedup.beforeAdd", cacheKey)
-		d.dkgSeedCache.Add(cacheKey)
-		return true
-	}
-
 	// Otherwise, the DKG seed is a duplicate and the client should not proceed
 	// with the execution.
-	return false
+	// The check and the insertion must be a single atomic operation because
+	// the same event can be delivered by concurrent handlers.
+	verifhook.At("dedup.beforeAdd", cacheKey)
+	return d.dkgSeedCache.Add(cacheKey)
 }
 
 // notifyDKGResultSubmitted notifies the client wants to start some actions
@@ -89,15 +86,12 @@ func (d *deduplicator) notifyDKGResultSubmitted(
 
 	// If the key is not in the cache, that means the result was not handled
 	// yet and the client should proceed with the execution.
-	if !d.dkgResultHashCache.Has(cacheKey) {
-		verifhook.At("dedup.beforeAdd", cacheKey)
-		d.dkgResultHashCache.Add(cacheKey)
-		return true
-	}
-
 	// Otherwise, the DKG result is a duplicate and the client should not
 	// proceed with the execution.
-	return false
+	// The check and the insertion must be a single atomic operation because
+	// the same event can be delivered by concurrent handlers.
+	verifhook.At("dedup.beforeAdd", cacheKey)
+	return d.dkgResultHashCache.Add(cacheKey)
 }
 
 func (d *deduplicator) notifyWalletClosed(
@@ -110,13 +104,10 @@ func (d *deduplicator) notifyWalletClosed(
 
 	// If the key is not in the cache, that means the wallet closure was not
 	// handled yet and the client should proceed with the execution.
-	if !d.walletClosedCache.Has(cacheKey) {
-		verifhook.At("dedup.beforeAdd", cacheKey)
-		d.walletClosedCache.Add(cacheKey)
-		return true
-	}
-
 	// Otherwise, the wallet closure is a duplicate and the client should not
 	// proceed with the execution.
-	return false
+	// The check and the insertion must be a single atomic operation because
+	// the same event can be delivered by concurrent handlers.
+	verifhook.At("dedup.beforeAdd", cacheKey)
+	return d.walletClosedCache.Add(cacheKey)
 }
